@@ -3,3 +3,4 @@ import GoJson.Gen.Consts
 import GoJson.Gen.Facts
 import GoJson.Props.C16
 import GoJson.Props.C17
+import GoJson.Props.C05
